@@ -321,33 +321,45 @@ def rule_stream(rep: Report, rid="C17.order") -> None:
     rep.ob(rid, "handlers cover the composite error and the root ParserError", "CompositeParserException" in hs and "ParserError" in hs and
            [h[0] for h in t[2]].index("CompositeParserException") < [h[0] for h in t[2]].index("ParserError"), **kw,
            expected="except CompositeParserException ... except ParserError", found=[h[0] for h in t[2]])
+    def envelope_ok(v, X, treex):
+        d = nf.resolve_ref_dict(I, v, treex)
+        pe = nf.resolve_ref_dict(I, d["parseError"][0], treex) if d and set(d) == {"parseError"} else None
+        src = nf.resolve_ref_dict(I, pe["source"][0], treex) if pe and set(pe) == {"source", "message"} else None
+        return src is not None and set(src) == {"uri", "location"} and src["uri"][0] == uri and src["location"][0] == ("attr", X, "location") \
+            and pe["message"][0] == ("call", "str", (X,), ())
+
     for name, h in hs.items():
-        ys = [n for n, c in nf.iter_nodes(h[2]) if n[0] in ("yield", "yieldfrom")]
-        ok = len(ys) == 1 and ys[0][0] == "yieldfrom" and isinstance(I.obj(ys[0][1]), HGen) and I.obj(ys[0][1]).qualname.endswith(".create_errors")
-        if ok:
-            g = I.obj(ys[0][1])
-            a0 = g.args[0]
+        ys = [(n, c) for n, c in nf.iter_nodes(h[2]) if n[0] in ("yield", "yieldfrom")]
+        ok = False
+        found = [n[0] for n, c in ys]
+        if len(ys) == 1 and ys[0][0][0] == "yield":
+            n, c = ys[0]
+            loops = nf.loops_in_ctx(c)
+            exc = ("excvar", h[4], h[0])
             if name == "CompositeParserException":
-                ok = a0[0] == "attr" and a0[2] == "errors" and a0[1][0] == "excvar" and g.args[1] == uri
+                if len(loops) == 1:
+                    li = I.loops[loops[0]]
+                    it = li.get("iter")
+                    ok = it is not None and it[0] == "attr" and it[2] == "errors" and it[1][0] == "excvar" and not li.get("conds") \
+                        and envelope_ok(n[1], ("elem", loops[0]), h[2]) and not nf.guards_in_ctx(c)
             else:
-                o = I.obj(a0)
-                ok = isinstance(o, HList) and len(o.segs) == 1 and o.segs[0][0] == "e" and o.segs[0][1][0] == "excvar" and g.args[1] == uri
-        rep.ob(rid, f"handler for {name} yields only parseError envelopes, one per error", ok, **kw, expected="yield from create_errors(errors, uri)", found=[n[0] for n in ys])
-    # create_errors
-    I2, fi2, tree2, rv2, st2 = _run("gherkin.stream.gherkin_events.create_errors")
-    rep.used_function(fi2.qualname)
-    ys = [(n, c) for n, c in nf.iter_nodes(tree2) if n[0] == "yield"]
-    ok = False
-    if len(ys) == 1 and len(nf.loops_in_ctx(ys[0][1])) == 1:
-        lid = nf.loops_in_ctx(ys[0][1])[0]
-        el = ("elem", lid)
-        d = nf.resolve_ref_dict(I2, ys[0][0][1], tree2)
-        pe = nf.resolve_ref_dict(I2, d["parseError"][0], tree2) if d and set(d) == {"parseError"} else None
-        src = nf.resolve_ref_dict(I2, pe["source"][0], tree2) if pe and set(pe) == {"source", "message"} else None
-        ok = src is not None and set(src) == {"uri", "location"} and src["uri"][0] == ("param", fi2.params()[1]) and src["location"][0] == ("attr", el, "location") \
-            and pe["message"][0] == ("call", "str", (el,), ()) and I2.loops[lid].get("iter") == ("param", fi2.params()[0]) and not I2.loops[lid].get("conds")
-    rep.ob(rid, "a parseError envelope carries {source: {uri, location: error.location}, message: str(error)}, one per error in order", ok,
-           file=fi2.file, line=fi2.node.lineno, function=fi2.qualname, expected="{'parseError': {'source': {'uri', 'location'}, 'message'}}", found=[fmt(n[1], I2) for n, _ in ys])
+                X = None
+                if not loops:
+                    for t in nf.subterms(n[1]):
+                        pass
+                    # the single error itself: find the exception variable used in the envelope
+                    d0 = nf.resolve_ref_dict(I, n[1], h[2])
+                    pe0 = nf.resolve_ref_dict(I, d0["parseError"][0], h[2]) if d0 and "parseError" in d0 else None
+                    m0 = pe0["message"][0] if pe0 and "message" in pe0 else None
+                    X = m0[2][0] if m0 is not None and m0[0] == "call" and m0[1] == "str" and len(m0[2]) == 1 else None
+                    ok = X is not None and X[0] == "excvar" and envelope_ok(n[1], X, h[2]) and not nf.guards_in_ctx(c)
+                elif len(loops) == 1:
+                    li = I.loops[loops[0]]
+                    o = I.obj(li.get("iter")) if li.get("iter") else None
+                    ok = isinstance(o, HList) and len(o.segs) == 1 and o.segs[0][0] == "e" and o.segs[0][1][0] == "excvar" \
+                        and envelope_ok(n[1], ("elem", loops[0]), h[2])
+        rep.ob(rid, f"handler for {name} yields only parseError envelopes {{source: {{uri, location: error.location}}, message: str(error)}}, one per error in order", ok, **kw,
+               expected="for error in errors: yield {'parseError': {'source': {'uri', 'location'}, 'message'}}", found=found)
     # the stream shares one id generator between builder and compiler and one parser/compiler across sources
     I3, fi3, tree3, rv3, st3 = _run("gherkin.stream.gherkin_events.GherkinEvents.__init__")
     rep.used_function(fi3.qualname)
